@@ -184,12 +184,19 @@ func lifecycleCase(sh []int, mask int, viaRegistry bool) string {
 			prev = id
 		}
 	}
+	// a remote stream whose SSRC number is the one local stream 1 uses (the two directions have separate SSRC
+	// spaces), and every stream is unbound: each Unbind reaches every member, whatever was unbound before
+	twin := &interceptor.StreamInfo{ID: "twin", SSRC: s.Locals[1].Info.SSRC, PayloadType: 96, ClockRate: 90000, MimeType: "video/VP8"}
+	chain.BindRemoteStream(twin, &hk.FeedReader{})
 	chain.UnbindLocalStream(s.Locals[1].Info)
 	chain.UnbindRemoteStream(s.Remotes[1].Info)
+	chain.UnbindRemoteStream(twin)
+	chain.UnbindLocalStream(s.Locals[2].Info)
+	chain.UnbindRemoteStream(s.Remotes[2].Info)
 	err := chain.Close()
 	for _, c := range counters {
-		if c.unbindL != 1 || c.unbindR != 1 || c.closed != 1 {
-			return fmt.Sprintf("member %d saw UnbindLocalStream %d times, UnbindRemoteStream %d times, Close %d times (want 1 each)", c.id, c.unbindL, c.unbindR, c.closed)
+		if c.unbindL != 2 || c.unbindR != 3 || c.closed != 1 {
+			return fmt.Sprintf("member %d saw UnbindLocalStream %d times (2 local streams unbound), UnbindRemoteStream %d times (3 remote streams unbound, one of them with the SSRC number of a local stream), Close %d times (want 1)", c.id, c.unbindL, c.unbindR, c.closed)
 		}
 		if c.bindL != 2 {
 			return fmt.Sprintf("member %d saw BindLocalStream %d times for two streams", c.id, c.bindL)
